@@ -69,6 +69,8 @@ theorem handler_ro (u : Unit) (e : Ev) : (∀ h ∈ u.before e, ∀ b, RO (h b))
     · exact RO.rememberAfterAuth _
     · exact RO.rememberAfterReset _
     · exact RO.expireAfterAuth _
+    · exact RO.expireAfterAuth _
+    · exact RO.expireAfterAuth _
 
 theorem RO.fireBefore (e : Ev) : RO (M.fireBefore e) := by
   unfold M.fireBefore
